@@ -250,6 +250,34 @@ def edited_conflict_copy_check(R, oid, key):
     return {"confirmed": False, "detail": "an edited conflict copy survives a repeated conflict with the same loser"}
 
 
+def conflict_name_reuse_check(R, oid, key):
+    """C06's naming clause over a history in which a conflict-copy NAME comes up twice: a conflict leaves `f.conflict-<host>-<H(L)>`,
+    the user edits that copy and syncs (the edit is an ordinary change and reaches both sides), then the same version L loses again.
+    Whatever else happens, a file called `..conflict-<host>-<12 hex>` must hold content whose BLAKE3 starts with those 12 digits,
+    on both sides (what becomes of the user's edit is C02's question and its known finding, not judged here)"""
+    for loser_side, winner_side in (("A", "B"), ("B", "A")):
+        steps = [{"set": ["A", "f", hx(b"seed")]}, {"set": ["B", "f", hx(b"seed")]}, {"run": True},
+                 {"set_ranked": [loser_side, "f", 2]}, {"set_ranked": [winner_side, "f", 6]}, {"run": True},
+                 {"edit_conflict": [loser_side, "f", hx(b"merge notes written into the preserved copy")]}, {"run": True},
+                 {"set_ranked": [loser_side, "f", 2]}, {"set_ranked": [winner_side, "f", 9]}, {"run": True}]
+        case = {"fn": "bisync_history", "steps": steps}
+        for prof in ("dev", "release"):
+            r = run_cases([case], prof)[0]
+            runs = r.get("runs", [])
+            if len(runs) < 4:
+                continue
+            last = runs[-1]
+            for side in ("A", "B"):
+                for name, v in last[side].items():
+                    if ".conflict-" in name and not v.get("b3", "").startswith(name.rsplit("-", 1)[1]):
+                        c = dict(case)
+                        c["observed"] = {prof: {side: {k: {"b3": x.get("b3", "")[:16], "data": x.get("data")} for k, x in last[side].items()}}}
+                        c["deviation"] = "%s/%s holds content with BLAKE3 %s.. - a conflict copy is named after the first 12 hex digits of ITS OWN hash" % (side, name, v.get("b3", "")[:12])
+                        return {"confirmed": True, "replay_path": R.save_replay(oid, c), "key": key,
+                                "detail": "bisync history (a conflict-copy name comes up a second time; loser on %s, %s): %s" % (loser_side, prof, c["deviation"])}
+    return {"confirmed": False, "detail": "a conflict-copy name that comes up a second time still names a file holding that very content"}
+
+
 def rename_source_check(R, oid, key):
     """real system calls of one both-changed conflict step and one propagation: every rename must move a `.copia-tmp`
     staging file; a live path is never renamed away or unlinked"""
@@ -321,6 +349,10 @@ def make_witness(R, pid, what):
         key = "%s/%s/%s" % (pid, what, name[:60])
         if "flushed-to-stable-storage" in name:
             return sync_order_check(R, oid, key)
+        if "recorded-only-if-the-losing-version-was-delivered" in name:
+            r = conflict_name_reuse_check(R, oid, key)
+            if r["confirmed"]:
+                return r
         if "never-overwrites-a-DIFFERENT-file" in name:
             return edited_conflict_copy_check(R, oid, "%s/apply/conflict-copy-overwrites-an-edited-conflict-copy" % pid)
         if what == "apply":
